@@ -177,6 +177,10 @@ const prelude = `(define-sort F64 () (_ FloatingPoint 11 53))
 (declare-fun unbox_Slice (Int) Slice)
 `
 
+const streqAxioms = `(assert (forall ((a Str)) (! (streq a a) :pattern ((streq a a)))))
+(assert (forall ((a Str) (b Str)) (! (=> (streq a b) (= (slen a) (slen b))) :pattern ((streq a b)))))
+`
+
 // sorter maps Go types to SMT sorts, declaring struct datatypes on demand.
 type sorter struct {
 	structDecls []string          // datatype declarations in dependency order
